@@ -4,6 +4,8 @@
 package schemagen
 
 import (
+	"strings"
+
 	"verif/internal/jv"
 
 	"pgregory.net/rapid"
@@ -295,10 +297,11 @@ func Vacuous(s map[string]any) bool {
 	return true
 }
 
-// Walk visits every schema node.
+// Walk visits every schema node in a deterministic order.
 func Walk(s map[string]any, f func(n map[string]any)) {
 	f(s)
-	for k, v := range s {
+	for _, k := range jv.Keys(s) {
+		v := s[k]
 		switch k {
 		case "not", "items", "additionalProperties":
 			if m, ok := v.(map[string]any); ok {
@@ -306,8 +309,8 @@ func Walk(s map[string]any, f func(n map[string]any)) {
 			}
 		case "properties":
 			if m, ok := v.(map[string]any); ok {
-				for _, p := range m {
-					if pm, ok := p.(map[string]any); ok {
+				for _, pk := range jv.Keys(m) {
+					if pm, ok := m[pk].(map[string]any); ok {
 						Walk(pm, f)
 					}
 				}
@@ -516,14 +519,17 @@ func likelyString(t *rapid.T, s map[string]any) any {
 		cands = append(cands, FormatSamples[f]...)
 		cands = append(cands, FormatBad[f]...)
 	}
-	if mi, ok := num(s["minLength"]); ok {
-		cands = append(cands, "aaaaaaaaaa"[:int(mi)], "abcd"[:min(4, int(mi)+1)])
-		if mi >= 1 {
-			cands = append(cands, "aaaaaaaaaa"[:int(mi)-1], "😀😀😀"[:4*min(3, int(mi))])
+	rep := func(unit string, n int) string {
+		if n < 0 {
+			n = 0
 		}
+		return strings.Repeat(unit, n)
+	}
+	if mi, ok := num(s["minLength"]); ok {
+		cands = append(cands, rep("a", int(mi)), rep("b", int(mi)+1), rep("a", int(mi)-1), rep("😀", int(mi)))
 	}
 	if ma, ok := num(s["maxLength"]); ok {
-		cands = append(cands, "aaaaaaaaaa"[:int(ma)], "aaaaaaaaaa"[:int(ma)+1], "😀😀😀😀"[:4*min(4, int(ma))])
+		cands = append(cands, rep("a", int(ma)), rep("a", int(ma)+1), rep("😀", int(ma)))
 	}
 	cands = append(cands, jv.Strings...)
 	return rapid.SampledFrom(cands).Draw(t, "strv")
